@@ -69,6 +69,10 @@ def coordinate_guard(F, lits):
             tab = float_class_table(F, F.closure(l[1][2][1][1]))
             if tab is None:
                 continue
+            # the test has to look at every coordinate of the answer: no skip / take / filter / step_by between the vector and any / all
+            if any(is_call(x, 'Iterator::skip', 'Iterator::take', 'Iterator::filter', 'Iterator::step_by', 'Iterator::skip_while', 'Iterator::take_while', 'Iterator::filter_map')
+                   for x in walk(l[1][2][0])):
+                continue
             q = l[1][1].split('::')[-1]
             holds = l[0] == 'true'
             # any(c) false  => every coordinate has c false;  all(c) true => every coordinate has c true
